@@ -237,6 +237,7 @@ func init() {
 		c.Fingerprint("pkg/humanize/numeric.go", "humanizeInt")
 		c.Fingerprint("pkg/humanize/units.go", "unitize")
 		c.c11Round4(&sb)
+		c.c11Arity(&sb)
 		sb.WriteString("\nend Rare.Gen.C11\n")
 		return sb.String()
 	})
